@@ -113,13 +113,12 @@ def unsaturated_layers(p, i):
 
 
 def knot_goal(p, tab, i, v):
-    """|sy_knot P 201 i - v| <= 1e-9 by Theorem knot_enclosure_tab: the value
-    computed from the two certified tables is pure rational arithmetic, which
-    `interval` evaluates; the table errors are accounted for by the theorem."""
-    stmt = 'Rabs (sy_knot P 201 %d - %s) <= %s' % (i, H.cR(v), H.cR(TOL_SY))
-    tac = ('apply (knot_enclosure_tab P PhiT ThT 201 %d eps eta M %s %s adm_P ltac:(lia) phi_all phi_range '
-           'theta_all); knot_tab_eval PhiT ThT; cbv beta iota delta [eps eta M]; interval with (i_prec 80)'
-           % (i, H.cR(v), H.cR(TOL_SY)))
+    """|sy_knot P 201 i - v| <= 1e-9 by Theorem knot_enclosure_Q: the value
+    computed from the two certified tables is exact rational arithmetic run by
+    vm_compute; the table errors are accounted for by the theorem."""
+    stmt = 'Rabs (sy_knot P 201 %d - Q2R %s) <= Q2R %s' % (i, C.cQ(v), C.cQ(TOL_SY))
+    tac = ('apply (knot_enclosure_Q P PhiQ ThQ 201 %d epsQ etaQ MQ thsQ %s %s adm_P ltac:(lia) phi_all phi_range '
+           'theta_all ths_ok); vm_compute; reflexivity' % (i, C.cQ(v), C.cQ(TOL_SY)))
     return (stmt, 'idtac', tac)
 
 
@@ -181,7 +180,7 @@ def check_sy(psets, out, label, knots_for):
         if tab['errors']:
             continue
         goals = [knot_goal(fr(p), tab, i, float(vals[i])) for i in ks]
-        head = 'Require Import Tab.Tab.\nFrom Coq Require Import ZArith Lia.\nNotation P := %s.\n' % H.peat_record(fr(p))
+        head = 'Require Import Tab.Tab.\nFrom Coq Require Import ZArith Lia QArith Qreals.\nOpen Scope R_scope.\nNotation P := %s.\n' % H.peat_record(fr(p))
         status, errs, secs = H.run_goals(PROP, '%s_knots%d' % (label, n), MODS, goals,
                                          per_file=max(1, (len(goals) + 15) // 16),
                                          extra_header=head, extra_args=tab['extra'])
